@@ -511,14 +511,18 @@ class MetadorGroup(MetadorNode):
         }
         # (the source is passed on as unwrapped node: the drivers only know their own objects)
         raw_source = src_node.__wrapped__
-        self.__wrapped__.copy(raw_source, dst_path, **copy_kwargs)  # RAW
+        # absolute paths are used from the root group: plain HDF5 looks up an absolute
+        # copy destination relative to the group the copy is called on
+        raw_root = self._self_container.__wrapped__
+        raw_recv = raw_root if dst_path[0] == "/" else self.__wrapped__
+        raw_recv.copy(raw_source, dst_path, **copy_kwargs)  # RAW
         dst_node = self[dst_path]  # exists now
 
         if src_is_dataset and not without_meta:
             # because metadata lives in parallel group, need to copy separately:
             src_meta: str = src_node.meta._base_dir
             dst_meta: str = dst_node.meta._base_dir  # node will not exist yet
-            self.__wrapped__.copy(src_meta, dst_meta, **copy_kwargs)  # RAW
+            raw_root.copy(src_meta, dst_meta, **copy_kwargs)  # RAW
 
             # register in TOC:
             dst_meta_node = self.__wrapped__[dst_meta]
